@@ -309,7 +309,7 @@ func main() {
 		g.activation(&a, "suite-parameters")
 	}
 
-	nAct := 8
+	nAct := 12
 	if thorough {
 		nAct = 150
 	}
@@ -336,5 +336,5 @@ func main() {
 	if err := s.Finish(); err != nil {
 		log.Fatal(err)
 	}
-	fmt.Printf("C16: %d cases, %d go-side failures\n", s.Len(), 0)
+	fmt.Printf("C16: %d cases\n", s.Len())
 }
